@@ -1,4 +1,5 @@
 import FlowRecord.Drive.Util
+import FlowRecord.Spec.Wire
 import FlowRecord.Drive.C13
 import FlowRecord.Model.Json
 /-!
@@ -165,7 +166,11 @@ def handleC14 : Handler := fun op j =>
   | "c14" => some do
       let descriptors ← getBool j "descriptors"
       let recs ← (← getArr j "records").toList.mapM c14Rec
-      let H := c14HashFn (← c14Hashes (← getObj j "hashes"))
+      -- the descriptor hash in `_recorddescriptor`: from the caller's table, or - when there is none - by the published
+      -- rule itself (Spec.descriptorHash, the model's own SHA-256)
+      let H : HashFn ← match j.getObjVal? "hashes" with
+        | .ok h => do pure (c14HashFn (← c14Hashes h))
+        | .error _ => pure (fun d => (Spec.descriptorHash d.name d.fields).getD 0)
       -- optional "fails": per record `true` when that write raises after the packer registered the descriptor
       let fails : List Bool := match j.getObjVal? "fails" with
         | .ok (Json.arr a) => a.toList.map (fun x => match x.getBool? with | .ok b => b | .error _ => false)
